@@ -315,7 +315,7 @@ def value_args_validate(fn_args, args, error_return_value=None):
             arg_lte = fn_arg.get('lte')
             arg_gt = fn_arg.get('gt')
             arg_gte = fn_arg.get('gte')
-            if ((fn_arg.get('integer') and (not math.isfinite(arg_value) or int(arg_value) != arg_value)) or
+            if ((fn_arg.get('integer') and not _is_integer(arg_value)) or
                 (arg_lt is not None and not (arg_value < arg_lt)) or
                 (arg_lte is not None and not (arg_value <= arg_lte)) or
                 (arg_gt is not None and not (arg_value > arg_gt)) or
@@ -327,6 +327,14 @@ def value_args_validate(fn_args, args, error_return_value=None):
         raise ValueArgsError(None, len(args), error_return_value)
 
     return args
+
+
+def _is_integer(value):
+    try:
+        return math.isfinite(value) and int(value) == value
+    except OverflowError:
+        # An integer too large for a float is not a usable index, count or size
+        return False
 
 
 class ValueArgsError(Exception):
